@@ -41,6 +41,7 @@ type kind struct {
 	must       []string // sites that every trial is expected to initialise (vacuity: reported, checked by the driver)
 	perProcess bool     // the shared "object" is package state: one trial per fresh child process
 	toy        bool     // harness-owned toy object (self-check), not part of the verdict about /repo
+	cold       []string // operations that do not pass any of the sites (the others do, on first use)
 	fresh      func(trial int) (any, error)
 	ops        []opdef
 }
@@ -200,6 +201,11 @@ func (t *trial) onGate(w *worker, k, site string) {
 		} else {
 			time.Sleep(t.grace / 4) // value stored, Once not yet marked done
 		}
+		return
+	}
+	if k == "init" {
+		// free mode: keep the initialiser inside the body a little longer, so that the others arrive at the guard
+		time.Sleep(time.Duration(w.rng.Intn(400)) * time.Microsecond)
 		return
 	}
 	t.perturb(w)
@@ -371,10 +377,28 @@ func runTrial(k *kind, id, n int, mode string, grace, watchdog time.Duration, se
 	for g := range ws {
 		ws[g] = &worker{g: g + 1, rng: rand.New(rand.NewSource(seed*1000003 + int64(id)*31 + int64(g)))}
 	}
+	// phase 1 (first use): operations that pass the lazily initialised sites, so that the initialisation is
+	// contended; every fourth trial the last goroutine makes an operation that does not (it must not be disturbed
+	// by, and must not disturb, the initialisation). Phase 2 (steady state): two calls each out of all operations.
+	var hot, cold []*opdef
+	for i := range k.ops {
+		isCold := false
+		for _, c := range k.cold {
+			isCold = isCold || c == k.ops[i].name
+		}
+		if isCold {
+			cold = append(cold, &k.ops[i])
+		} else {
+			hot = append(hot, &k.ops[i])
+		}
+	}
 	nops := len(k.ops)
 	p1, p2 := make(plan, n), make(plan, n)
 	for g := 0; g < n; g++ {
-		p1[g] = []*opdef{&k.ops[(g+id)%nops]}
+		p1[g] = []*opdef{hot[(g+id)%len(hot)]}
+		if len(cold) > 0 && id%4 == 1 && g == n-1 {
+			p1[g] = []*opdef{cold[(id/4)%len(cold)]}
+		}
 		p2[g] = []*opdef{&k.ops[(g+id+1)%nops], &k.ops[(g+2*id+2)%nops]}
 	}
 	cur.Store(t)
@@ -403,17 +427,37 @@ func runTrial(k *kind, id, n int, mode string, grace, watchdog time.Duration, se
 		}
 	}
 	sort.Slice(all, func(i, j int) bool { return t.events[all[i].evIdx].Seq < t.events[all[j].evIdx].Seq })
+	isBad := func(res string) bool { return res == "bad" || res == "err" || res == "panic" }
+	persistent := map[string]bool{}
 	for _, r := range all {
 		r.res = resOf(r.op, r.v, r.raw, r.err, r.pan)
 		t.events[r.evIdx].Res = r.res
 		if _, ok := seqres[r.opname]; !ok {
 			raw, err, pan := safeCall(r.op, o, r.v)
-			seqres[r.opname] = resOf(r.op, r.v, raw, err, pan)
+			sres := resOf(r.op, r.v, raw, err, pan)
 			order = append(order, r.opname)
 			if pan != "" {
 				sum.Fails = append(sum.Fails, fail{id, "panic", fmt.Sprintf("sequential %s on the shared %s after the concurrent phase: %s", r.opname, k.name, pan)})
 			}
+			if isBad(sres) && !k.perProcess {
+				// the shared object answers wrongly even sequentially: ask an object that was never shared.
+				// If that one is right, the concurrent phase has damaged the shared object; if it is wrong as
+				// well the operation or its input is broken regardless of concurrency (harness trouble).
+				if o2, err2 := k.fresh(id); err2 == nil {
+					raw2, e2, p2 := safeCall(r.op, o2, r.v)
+					if ref := resOf(r.op, r.v, raw2, e2, p2); !isBad(ref) {
+						sres = ref
+						persistent[r.opname] = true
+					} else {
+						sum.Fails = append(sum.Fails, fail{id, "harness", fmt.Sprintf("%s on a fresh unshared %s: %s (err=%v %s)", r.opname, k.name, ref, e2, p2)})
+					}
+				}
+			}
+			seqres[r.opname] = sres
 		}
+	}
+	for opn := range persistent {
+		sum.Fails = append(sum.Fails, fail{id, "wrong-result", fmt.Sprintf("%s on the shared %s after the concurrent phase (%s) fails, on a fresh unshared object it gives %s: the shared object was damaged", opn, k.name, mode, seqres[opn])})
 	}
 	for _, r := range all {
 		sum.Calls++
@@ -424,8 +468,10 @@ func runTrial(k *kind, id, n int, mode string, grace, watchdog time.Duration, se
 			sum.Fails = append(sum.Fails, fail{id, "panic", fmt.Sprintf("g%d %s on shared %s (phase %d, %s): %s", r.g, r.opname, k.name, r.phase, mode, r.pan)})
 		case r.res != exp:
 			sum.Fails = append(sum.Fails, fail{id, "wrong-result", fmt.Sprintf("g%d %s on shared %s (phase %d, %s): concurrent result %s, sequential result %s (err=%v)", r.g, r.opname, k.name, r.phase, mode, r.res, exp, r.err)})
-		case r.res == "bad" || r.res == "err":
-			sum.Fails = append(sum.Fails, fail{id, "wrong-result", fmt.Sprintf("g%d %s on shared %s (phase %d, %s): result %s (err=%v), also sequentially", r.g, r.opname, k.name, r.phase, mode, r.res, r.err)})
+		case isBad(r.res):
+			// only per-process kinds get here (package state cannot be rebuilt in this process); the inputs were
+			// produced and checked by the parent process, so this is a result the sequential library does not give
+			sum.Fails = append(sum.Fails, fail{id, "wrong-result-persistent", fmt.Sprintf("g%d %s on shared %s (phase %d, %s): result %s (err=%v), and the same sequentially afterwards in this process", r.g, r.opname, k.name, r.phase, mode, r.res, r.err)})
 		}
 	}
 	for _, opn := range order {
